@@ -1,5 +1,5 @@
 """C10 - generations move forward on every change and only then."""
-from pv import histrun, monitors
+from pv import conc, histrun, monitors
 from pv.gen.history import HistoryGen, Names
 
 META = {
@@ -9,10 +9,12 @@ META = {
             'evaluation = one request judged on the generation columns of '
             'the dumps around it and on the generation it returned; distinct '
             '= (route, entity kind, what changed | returned-generation)',
-    'floors': {'provider_changes_judged': 20, 'placements_judged': 10,
+    'floors': {'concurrent_schedules': 100,
+               'provider_changes_judged': 20, 'placements_judged': 10,
                'consumer_writes_judged': 5,
                'returned_generations_judged': 10},
-    'assumptions': ['SQLite backend', 'sequential requests',
+    'assumptions': ['SQLite backend', 'sequential histories + committed-state sequences of '
+                    'transaction-level interleavings of request pairs/triples',
                     'successful writes that change nothing may or may not '
                     'bump a generation (not judged)'],
     'shard_timeout': 3000,
@@ -21,13 +23,27 @@ META = {
 WEIGHTS = {'read': 8}
 
 
+CONC = conc.invariant_scenarios(include_tree=False)
+
+
 def plan(tier, seed, scale):
-    return histrun.plan_seeds(tier, seed, scale, 320, 6400,
+    shards = histrun.plan_seeds(tier, seed, scale, 320, 6400,
                               20 if tier == 'quick' else 100,
                               extra={'steps': 80 if tier == 'quick' else 120})
+    n = max(1, int(len(CONC) * min(scale, 1)))
+    for sh in conc.plan_scenarios(n, tier, seed, per=max(1, (n + 7) // 8)):
+        sh['conc'] = True
+        shards.append(sh)
+    return shards
+
+
+def conc_shard(spec, res):
+    conc.run_invariants('C10', CONC, spec, res, per_step=monitors.c10_concurrent)
 
 
 def run_shard(spec, res):
+    if spec.get('conc'):
+        return conc_shard(spec, res)
     svc = histrun.Service()
     try:
         for i in range(spec['first'], spec['first'] + spec['count']):
